@@ -448,8 +448,9 @@ def report(ctx, cases, obs, codes, py_diffs, doc_jobs, doc_codes, n_corpus):
     for i, sig, what in py_diffs:
         if (i, sig) not in bad_docs:
             ctx.mismatch(what, {'case': cases[i], 'from_corpus': i < n_corpus})
-    # the hand-written witnesses first (in corpus order of size), then the smallest generated case
-    fails.sort(key=lambda f: (0 if f[3].get('from_corpus') else 1, f[0]))
+    # the hand-written witnesses first (in corpus order: the F22 witnesses lead), then the smallest generated case
+    order = {json.dumps(c, sort_keys=True): k for k, c in reversed(list(enumerate(cases[:n_corpus])))}
+    fails.sort(key=lambda f: ((0, order.get(json.dumps(f[3]['case'], sort_keys=True), 0)) if f[3].get('from_corpus') else (1, f[0])))
     seen = set()
     for _, sig, what, info in fails:
         # one entry per clause and case is enough
